@@ -198,7 +198,7 @@ func extractC03(c *ctxT) {
 	sort.Slice(claims, func(i, j int) bool { return claims[i].Name < claims[j].Name })
 
 	var sb strings.Builder
-	sb.WriteString("import FxVerif.Model.C03Fmt\n\nnamespace FxVerif.Gen.C03\nopen FxVerif.Model.C03\n\n")
+	sb.WriteString("import FxVerif.Model.C03Fmt\n\n-- the generated `path` of each claim type lives in the namespace of the model's claim record (so `c.path` resolves)\nnamespace FxVerif.Model.C03\n\n")
 	var names []string
 	factClaims := map[string]any{}
 	for _, cl := range claims {
@@ -207,20 +207,32 @@ func extractC03(c *ctxT) {
 		if cl.Problem != "" {
 			fmt.Fprintf(&sb, "-- extractor: %s\n", cl.Problem)
 		}
-		// path function
-		var parts, hashed []string
-		for _, s := range cl.Segs {
+		// path function, right-nested: seg ++ (lit :: (seg ++ …))
+		var hashed []string
+		expr := ""
+		for i := len(cl.Segs) - 1; i >= 0; i-- {
+			s := cl.Segs[i]
 			if s.Verb == "" {
-				parts = append(parts, c03CharList(s.Lit))
+				if expr == "" {
+					expr = c03CharList(s.Lit)
+				} else {
+					cs := strings.TrimSuffix(strings.TrimPrefix(c03CharList(s.Lit), "["), "]")
+					expr = strings.ReplaceAll(cs, ", ", " :: ") + " :: (" + expr + ")"
+				}
 			} else {
-				parts = append(parts, fmt.Sprintf("fmt_%s_%s c.%s", s.Verb, s.Tag, s.Field))
-				hashed = append(hashed, leanStr(s.Field))
+				f := fmt.Sprintf("fmt_%s_%s c.%s", s.Verb, s.Tag, s.Field)
+				if expr == "" {
+					expr = f
+				} else {
+					expr = f + "\n  ++ (" + expr + ")"
+				}
+				hashed = append([]string{leanStr(s.Field)}, hashed...)
 			}
 		}
-		if len(parts) == 0 {
-			parts = []string{"[]"}
+		if expr == "" {
+			expr = "[]"
 		}
-		fmt.Fprintf(&sb, "def %s.path (c : %s) : Str :=\n  %s\n\n", cl.Name, cl.Name, strings.Join(parts, "\n  ++ "))
+		fmt.Fprintf(&sb, "def %s.path (c : %s) : Str :=\n  %s\n\n", cl.Name, cl.Name, expr)
 		fmt.Fprintf(&sb, "def %s.hashedFields : List String := %s\n\n", cl.Name, leanList(hashed))
 		var sf []string
 		for _, f := range cl.Fields {
@@ -234,6 +246,7 @@ func extractC03(c *ctxT) {
 		}
 		factClaims[cl.Name] = map[string]any{"format": cl.Format, "segments": fsegs, "where": cl.Where, "hash": cl.HashFn, "fields": cl.Fields}
 	}
+	sb.WriteString("end FxVerif.Model.C03\n\nnamespace FxVerif.Gen.C03\nopen FxVerif.Model.C03\n\n")
 	fmt.Fprintf(&sb, "/-- every type with a `ClaimHash` method -/\ndef claimTypes : List String := %s\n\n", leanList(names))
 
 	// chain table
